@@ -55,6 +55,7 @@ type DiagramOpts struct {
 
 	MinObjects, MaxObjects int // per board; 0 → 3 / 16
 	MaxDepth               int // container nesting; 0 → 4
+	NamePool               int // >0: names are drawn from a pool of that many names (incl. case variants), so the same id recurs in different containers
 
 	Containers  float64 // an object becomes a container (default .3)
 	Shapes      float64 // a leaf gets an explicit simple shape (.5)
@@ -234,6 +235,7 @@ func (n *dnode) sroot() *dnode {
 type dg struct {
 	r       *R
 	o       DiagramOpts
+	pool    []string
 	counter int
 	suffix  string // appended to root-level names of nested boards (scenarios/steps inherit: no merging with the base)
 }
@@ -253,7 +255,21 @@ func (d *dg) descOK() bool { return d.o.Engine == "elk" || d.o.Unsupported }
 func (d *dg) newName(parent *dnode) (name, key string) {
 	for try := 0; ; try++ {
 		var s string
-		if d.o.Hostile && d.r.P(0.6) {
+		if d.o.NamePool > 0 {
+			if d.pool == nil {
+				for i := 0; i < d.o.NamePool; i++ {
+					n := plainName(d.r)
+					if d.o.Hostile && d.r.P(0.4) {
+						n = Name(d.r, true, 8)
+					}
+					d.pool = append(d.pool, n)
+					if d.r.P(0.3) {
+						d.pool = append(d.pool, strings.ToUpper(n))
+					}
+				}
+			}
+			s = Pick(d.r, d.pool)
+		} else if d.o.Hostile && d.r.P(0.6) {
 			s = Name(d.r, true, 12)
 		} else {
 			s = plainName(d.r)
